@@ -31,7 +31,7 @@ fuzz_target!(|data: &[u8]| {
         "C01" => c01::C01.run(&c01::Case::Pair(sc.clone())),
         "C12" => c12::C12.run(&sc),
         "C20" => c20::C20.run(&sc),
-        _ => c02::C02.run(&sc),
+        _ => c02::C02.run(&c02::Case::Pair(sc.clone())),
     };
     if let Some(v) = r.violation {
         if fuzz_is_known(&v.key) {
